@@ -1,6 +1,7 @@
 import FrappyModel.Spec.C01
 import FrappyModel.Base.NumCompat
 import FrappyModel.Datatypes.Variants
+import FrappyModel.Datatypes.CompatUsers
 /-
 C03 — Datatype descriptions, copies and compatibility verdicts are faithful.
 
@@ -391,6 +392,50 @@ def judgeCompatC (a b : CType F) (verdict : Verdict) (ws : List (Witness F)) : L
   | .pass => if ws.any (fun w => inSetCB a w.value && !w.accepted) then ["sound"] else []
   | .bad => if nestedCB a b then ["complete"] else []
   | .other _ => if nestedCB a b then ["complete"] else []
+
+/-! ## commands: the argument goes to the other command, the result comes back from it -/
+
+open Frappy.Datatypes (CmdType) in
+/-- a command can stand in for another one: both take an argument or none and every argument valid here is valid there,
+both give a result or none and every result of the other is valid here -/
+def NestedCmd (a b : CmdType F) : Prop :=
+  (match a.argument, b.argument with
+   | none, none => True
+   | some x, some y => NestedC x y
+   | _, _ => False) ∧
+  (match a.result, b.result with
+   | none, none => True
+   | some x, some y => NestedC y x
+   | _, _ => False)
+
+open Frappy.Datatypes (CmdType) in
+instance (a b : CmdType F) : Decidable (NestedCmd a b) := by
+  unfold NestedCmd
+  have : Decidable (match a.argument, b.argument with
+   | none, none => True
+   | some x, some y => NestedC x y
+   | _, _ => False) := by split <;> infer_instance
+  have : Decidable (match a.result, b.result with
+   | none, none => True
+   | some x, some y => NestedC y x
+   | _, _ => False) := by split <;> infer_instance
+  infer_instance
+
+open Frappy.Datatypes (CmdType) in
+/-- clauses a verdict of `CommandType.compatible` breaks: a passing one when one command takes an argument (gives a
+result) and the other does not, or by a witness — an argument of `a` refused by `b`'s argument type, a result of `b`
+refused by `a`'s result type; a refusing one on a nested pair -/
+def judgeCmd (a b : CmdType F) (verdict : Verdict) (wsArg wsRes : List (Witness F)) : List String :=
+  match verdict with
+  | .pass =>
+    (if a.argument.isSome != b.argument.isSome || a.result.isSome != b.result.isSome then ["sound"] else []) ++
+    (match a.argument with
+     | some x => if wsArg.any (fun w => inSetCB x w.value && !w.accepted) then ["sound"] else []
+     | none => []) ++
+    (match b.result with
+     | some y => if wsRes.any (fun w => inSetCB y w.value && !w.accepted) then ["sound"] else []
+     | none => [])
+  | _ => if decide (NestedCmd a b) then ["complete"] else []
 
 /-! ## equivalence of a rebuilt / copied type -/
 
